@@ -31,6 +31,13 @@ def render(prog):
         elif k == "lget": L.append(f"{v} = v{a}[{b}]")
         elif k == "lpush": L.append(f"m{n} = ![v{a}, v{b}]\nm{n}.push! v{c}\n{v} = m{n}[{s}]")
         elif k == "lmap": L.append(f"{v} = v{a}.map(i -> i + v{b}).to_list()")
+        elif k == "ifg":
+            # s = "<form>,<lit>": form li: <lit> op i ; il: i op <lit> ; c = value of the else branch
+            form, lit_ = s.split(",")
+            cond = f"{lit_} {op} i" if form == "li" else f"i {op} {lit_}"
+            L.append(f"f{n}(i: Int) = if {cond}, do i, do {c}\n{v} = f{n}(v{a})")
+        elif k == "lpushi": L.append(f"{v} = v{a}.push(v{b})")
+        elif k == "opmeth": L.append(f"{v} = (v{a} {op} v{b}).{s}()")
         elif k == "inject": L.append(render_inject(prog, n, st))
         else: raise ValueError(k)
     return "\n".join(L) + "\n"
@@ -46,6 +53,11 @@ def inject_expr(n, st):
     elif kind == "arity":
         pre = f"g{n}(x, y) = x\n"
         e = f"g{n}(v{a})" if op == "1" else f"g{n}(v{a}, v{a}, v{a})"
+    elif kind == "arityf":
+        # the callee is a parameter of function type (its parameters have no names)
+        pre = f"k{n}(x: Int, y: Int): Int = x + y\n"
+        call = "cb(1)" if op == "1" else "cb(1, 2, 3)"
+        return pre, f"(cb: (Int, Int) -> Int) -> {call}"
     elif kind == "undef": e = f"v{a} + zz{n}" if n % 2 else f"zz{n}"
     elif kind == "noattr": e = f"v{a}.nosuch{n}"
     else: raise ValueError(kind)
@@ -55,7 +67,8 @@ def inject_expr(n, st):
 def render_inject(prog, n, st):
     """the erroneous expression at nesting depth st['c']:
     0 top-level binding; 1 inside a function body; 2 inside a branch of an if inside a function;
-    3 inside a lambda stored in a list; 4 as an argument of a call inside a nested block"""
+    3 inside a lambda stored in a list; 4 as an argument of a call inside a nested block;
+    5 default value of a parameter; 6 default value of a lambda parameter inside a loop body"""
     pre, e = inject_expr(n, st)
     d = st["c"]
     if d == 0: body = f"w{n} = {e}"
@@ -63,6 +76,8 @@ def render_inject(prog, n, st):
     elif d == 2: body = f"h{n}(c: Bool) =\n    if c:\n        do:\n            t = {e}\n            t\n        do: v1\n"
     elif d == 3: body = f"w{n} = [() -> {e}]"
     elif d == 4: body = f"k{n} x = x\nh{n}() =\n    u =\n        q = k{n}({e})\n        q\n    u\n"
+    elif d == 5: body = f"h{n}(q, p := {e}) = q\n"                       # default value of a parameter
+    elif d == 6: body = f"h{n}() =\n    for! [1], i =>\n        t = (p := {e}) -> p\n        print! i\n"   # default of a lambda in a loop body
     else: raise ValueError(d)
     return pre + body
 
@@ -73,7 +88,7 @@ class Unparsed(Exception):
     pass
 
 
-_TOK = re.compile(r'\s*(\.\.<|<\.\.<|<\.\.|\.\.|"(?:[^"\\]|\\.)*"|-?\d+\.\d+(?:e-?\d+)?|-?\d+|[A-Za-z_][A-Za-z_0-9!]*|.)')
+_TOK = re.compile(r'\s*(\.\.<|<\.\.<|<\.\.|\.\.|<=|>=|==|!=|"(?:[^"\\]|\\.)*"|-?\d+\.\d+(?:e-?\d+)?|-?\d+|%?[A-Za-z_][A-Za-z_0-9!]*|.)')
 
 
 def _tokens(s):
@@ -116,6 +131,45 @@ class _P:
             parts.append(self.atom())
         return parts[0] if len(parts) == 1 else ("and", parts)
 
+    # predicates of refinement types: comparisons of the variable with integer literals, and / or / not, parentheses
+    def pred_or(self, var):
+        alts = [self.pred_and(var)]
+        while self.peek() == "or":
+            self.eat()
+            alts.append(self.pred_and(var))
+        return alts[0] if len(alts) == 1 else ("por", alts)
+
+    def pred_and(self, var):
+        parts = [self.pred_atom(var)]
+        while self.peek() == "and":
+            self.eat()
+            parts.append(self.pred_atom(var))
+        return parts[0] if len(parts) == 1 else ("pand", parts)
+
+    def pred_atom(self, var):
+        if self.peek() == "(":
+            self.eat()
+            p = self.pred_or(var)
+            self.eat(")")
+            return p
+        if self.peek() == "not":
+            self.eat()
+            return ("pnot", self.pred_atom(var))
+        a = self.pred_operand(var)
+        op = self.eat()
+        if op not in ("<=", ">=", "==", "!=", "<", ">"):
+            raise Unparsed("predicate operator " + str(op))
+        b = self.pred_operand(var)
+        return ("cmp", op, a, b)
+
+    def pred_operand(self, var):
+        tok = self.eat()
+        if tok == var:
+            return "var"
+        if re.fullmatch(r"-?\d+(\.\d+)?", tok):
+            return float(tok) if "." in tok else int(tok)
+        raise Unparsed("predicate operand " + str(tok))
+
     def lit(self):
         tok = self.peek()
         if tok is None:
@@ -150,6 +204,16 @@ class _P:
             t = self.ty()
             self.eat(")")
             return t
+        if tok == "{" and self.i + 2 < len(self.t) and re.fullmatch(r"%?[A-Za-z_][A-Za-z_0-9]*", self.t[self.i + 1]) and self.t[self.i + 2] == ":":
+            # refinement type {v: T | predicate}
+            self.eat()
+            var = self.eat()
+            self.eat(":")
+            base = self.ty()
+            self.eat("|")
+            pred = self.pred_or(var)
+            self.eat("}")
+            return ("refine", base, pred)
         if tok == "{":
             self.eat()
             lits = []
@@ -244,7 +308,19 @@ def member(v, t):
         if c == "NoneType": return v is None
     if k == "list":
         return isinstance(v, list) and (t[2] is None or len(v) == t[2]) and all(member(x, t[1]) for x in v)
+    if k == "refine":
+        return member(v, t[1]) and isinstance(v, (int, float)) and not isinstance(v, str) and eval_pred(t[2], v)
     raise Unparsed(str(t))
+
+
+def eval_pred(p, x):
+    k = p[0]
+    if k == "por": return any(eval_pred(q, x) for q in p[1])
+    if k == "pand": return all(eval_pred(q, x) for q in p[1])
+    if k == "pnot": return not eval_pred(p[1], x)
+    a = x if p[2] == "var" else p[2]
+    b = x if p[3] == "var" else p[3]
+    return {"<=": a <= b, ">=": a >= b, "==": a == b, "!=": a != b, "<": a < b, ">": a > b}[p[1]]
 
 
 HIR_BIND = re.compile(r"^::(v\d+)\(: (.*)\) =$", re.M)
@@ -269,7 +345,7 @@ def runtime_bindings(run):
 
 
 def shape(st):
-    return st["k"] + (":" + st["op"] if st["op"] else "") + (":" + st["s"] if st["k"] in ("fn", "ann", "inject") else "")
+    return st["k"] + (":" + st["op"] if st["op"] else "") + (":" + st["s"] if st["k"] in ("fn", "ann", "inject", "ifg", "opmeth") else "")
 
 
 def derive(cfg, num, depth, seed, tag, workers=8, timeout=900, exhaustive=False, per_shape=None):
